@@ -155,14 +155,19 @@ def _build():
     one, sa, mk, na = N.num(1.0), ('str', 'a'), N.MARKER, N.NA
     lists = [(), (N.NULL,), (one, sa), (('list', (one,)),), (('list', (('list', (mk,)),)),), (na, N.mkdict([('a', one)])),
              (('str', 'a,b'), ('str', ']'), ('str', '')), (('ref', 'a', 'x'), ('ref', 'b', None)), (N.num(1.5, 'kg'), ('uri', 'x')),
-             (('bool', True), ('date', 2020, 2, 29), ('time', 12, 34, 56, 0)), (N.REMOVE, N.MARKER, N.NULL, N.NULL)]
+             (('bool', True), ('date', 2020, 2, 29), ('time', 12, 34, 56, 0)), (N.REMOVE, N.MARKER, N.NULL, N.NULL),
+             # a collection inside a collection of the SAME shape whose members cannot be compared with each other (other unit, other
+             # kind, NaN): nothing may compare an enclosing collection with an enclosed one
+             (N.num(72.0, u'\xb0F'), ('list', (N.num(20.0, u'\xb0C'), N.num(25.0, u'\xb0C')))),
+             (N.num(float('nan')), ('list', (N.num(float('nan')), ('str', 'x'))))]
     for i, l in enumerate(lists):
-        add(E('list:%d' % i, ('list', tuple(l)), minver='3.0', rep=i in (0, 2, 5)))
+        add(E('list:%d' % i, ('list', tuple(l)), minver='3.0', rep=i in (0, 2, 5, 11)))
     dicts = [[], [('a', mk)], [('a', one), ('b', ('str', 'x'))], [('a', ('list', (one,)))], [('a', N.mkdict([('b', N.mkdict([('c', one)]))]))],
              [('a', N.NULL)], [('a', ('str', 'b:c d')), ('e', mk)], [('a', ('ref', 'r', 'x y')), ('z', one)], [('aB_1', na)],
-             [('a', ('str', '}')), ('b', ('uri', 'u'))], [('a', ('bool', False)), ('b', N.REMOVE)]]
+             [('a', ('str', '}')), ('b', ('uri', 'u'))], [('a', ('bool', False)), ('b', N.REMOVE)],
+             [('val', N.num(3.5, 'kW')), ('sub', N.mkdict([('val', N.num(12.0, 'A')), ('sub', mk)]))]]
     for i, d in enumerate(dicts):
-        add(E('dict:%d' % i, N.mkdict(d), minver='3.0', rep=i in (0, 2, 3)))
+        add(E('dict:%d' % i, N.mkdict(d), minver='3.0', rep=i in (0, 2, 3, 11)))
     g0 = N.mkgrid('3.0', [], [('a', [])], [])
     g1 = N.mkgrid('3.0', [], [('a', []), ('b', [])], [(one, ('str', 'x'))])
     g2 = N.mkgrid('3.0', [('m', mk), ('s', ('str', 'x y'))], [('a', [('u', ('str', 'kg'))])], [(one,), (N.NULL,)])
